@@ -21,6 +21,7 @@ struct Handle { Entity e; size_t world; };
 struct ProbeMaster { int64_t v; };
 struct ProbeDep { int64_t v; };
 struct ProbeEvent { int v; };
+struct C1 { int64_t v; };
 
 static void run_script(const std::vector<std::string>& lines) {
     std::vector<std::unique_ptr<World>> worlds;      // null once destroyed
@@ -78,6 +79,23 @@ static void run_script(const std::vector<std::string>& lines) {
                 const bool d2 = em.hasComponent<ProbeDep>(f);
                 printf("R probe create=%d assign=%d\n", d1 ? 1 : 0, d2 ? 1 : 0);
                 em.destroyNow(e); em.destroyNow(f);
+            } else printf("R\n");
+        } else if (op == "lockedforeign") {
+            // lockedforeign <k> <h> <g> <order>: in one locked section of world k, a command through world k's own handle #h and a
+            // command through handle #g of ANOTHER world (often the same slot id), recorded next to each other. The foreign command
+            // means nothing in world k; the own one takes effect. R: does #h have C1 afterwards, is it still alive
+            size_t k, h, g; int order; in >> k >> h >> g >> order;
+            if (k < worlds.size() && worlds[k] && h < handles.size() && g < handles.size() && handles[h].world == k && handles[g].world != k
+                && worlds[k]->entities().isEntityValid(handles[h].e)) {
+                auto& em = worlds[k]->entities();
+                const bool had = em.hasComponent<C1>(handles[h].e);
+                em.lock();
+                if (order == 0) { if (!had) em.assign<C1>(handles[h].e); em.destroyNow(handles[g].e); }
+                else if (order == 1) { em.destroyNow(handles[g].e); if (!had) em.assign<C1>(handles[h].e); }
+                else { em.removeComponent<C0>(handles[g].e); if (!had) em.assign<C1>(handles[h].e); em.removeComponent<C1>(handles[g].e); }
+                em.unlock();
+                const bool alive = em.isEntityValid(handles[h].e);
+                printf("R lockedforeign alive=%d c0=%d c1=%d\n", alive ? 1 : 0, alive && em.hasComponent<C0>(handles[h].e) ? 1 : 0, alive && em.hasComponent<C1>(handles[h].e) ? 1 : 0);
             } else printf("R\n");
         } else if (op == "evprobe") {
             // a receiver subscribed through world k's events() hears what is posted through world k, and nothing posted through
